@@ -122,6 +122,9 @@ class Capabilities(dict[int, Capability]):
             if allowed not in nexthops:
                 continue
             nh_pairs.append(allowed)
+        if not nh_pairs:
+            # RFC 8950 section 3: the capability lists <NLRI AFI, NLRI SAFI, Nexthop AFI> tuples - none, nothing to advertise
+            return
         self[Capability.CODE.NEXTHOP] = NextHop(tuple(nh_pairs))
 
     def _addpath(self, neighbor: Neighbor) -> None:
@@ -133,6 +136,10 @@ class Capabilities(dict[int, Capability]):
         for allowed in self._ADD_PATH:
             if allowed in families:
                 ap_families.append(allowed)
+        if not ap_families:
+            # RFC 7911 section 4: the capability holds one or more <AFI, SAFI, Send/Receive> tuples - with no
+            # family to list there is nothing to advertise (an empty capability went out)
+            return
         self[Capability.CODE.ADD_PATH] = AddPath(ap_families, neighbor.capability.add_path)
 
     def _graceful(self, neighbor: Neighbor, restarted: bool) -> None:
